@@ -5,7 +5,9 @@ architectural parameters (seeded data), update_softmax_options(temperature | har
 eval(), set-representative-coefficients.  At every reached state: sd = deepcopy(state_dict()); a fresh wrapper of the same
 seed network is built with the same constructor arguments, load_state_dict(sd, strict) and both models are observed:
 keys, seeded forward, every cost, summary(), exported network output; then one more identical training step and the same
-observations again (state that only matters later).
+observations again (state that only matters later).  The load is first attempted with strict=True (as the property states it: it must not
+raise), then tolerantly so that keys and observations are still compared.  Besides the grammar-built models, one seed network per method
+keeps its layers under attribute names that any string-based treatment of the keys trips over (fixtures.AdvNamesNet / AdvNamesSN).
 A mismatch is attributed CAUSALLY to an option that lives outside the state_dict by re-applying the post-construction option
 changes of the history to the restored wrapper: the smallest set of options whose re-application removes the mismatch is the
 signature; if none does, it is an unattributed violation.
@@ -21,23 +23,44 @@ from .. import history as H
 PID = 'C17'
 RULE = ('BFS over all operation sequences up to the depth bound over {step_net, step_nas, option changes, discrete_cost, train, eval, set coefficients, '
         'observe (= cost + summary + export, the logging calls of a search)} '
-        'on PIT (1D with BN, 2D), MPS per-layer / per-channel and SuperNet (soft, Gumbel) models; in EVERY reached state a checkpoint is taken and '
-        'restored into a freshly constructed wrapper (same constructor arguments, same caller-visible train/eval mode) and the two are compared on '
+        'on PIT (1D with BN, 2D), MPS per-layer / per-channel and SuperNet (soft, Gumbel) models + one seed network per method whose layers sit under '
+        'ordinary-but-adversarial attribute names (feature_module, module, submodule.conv, ModuleDict key "module", seed, seed_alpha, _exported_bn, alpha, '
+        'choice_module; quick: first letter in {step_nas, observe, none}, thorough: every first letter for PIT / SuperNet, five for MPS); in EVERY reached state a checkpoint is taken and '
+        'restored into a freshly constructed wrapper (same constructor arguments, same caller-visible train/eval mode; load_state_dict(strict=True) must not '
+        'raise, then no missing / unexpected keys) and the two are compared on '
         'keys, seeded forward, all costs, summary, export output, and again after one more identical training step; '
         'non-trivial = a state reached by a history with at least one optimizer step or option change')
 ASSUMPTIONS = ['the fresh wrapper gets the constructor arguments of the original and its train()/eval() mode (mode is caller state in PyTorch); options changed '
                'after construction are NOT re-applied by the harness - if they influence the observations and are not in the state_dict that is a finding',
                'requires_grad flags are caller state: the continuation step updates the same named parameters in both models',
-               'the harness owns the RNG (re-seeds before every forward / step)']
+               'the harness owns the RNG (re-seeds before every forward / step)',
+               'the state after `observe` (cost + summary + export in the CURRENT mode) is checkpointed and compared in that same mode: the harness calls no '
+               'train()/eval() on the original between the export and the comparison (only the fresh wrapper is put in the mode of the original)',
+               'violations seen on an adversarially named seed network are signed <sig>/adversarial-attribute-names (except option-outside-state-dict, which is '
+               'the same finding whatever the layers are called)']
 
 
 def bounds(tier):
-    return {'quick': {'depth': 3}, 'thorough': {'depth': 5}}[tier]
+    return {'quick': {'depth': 3, 'adversarially_named_seeds': [list(m[:2]) for m in ADV_MODELS], 'their_first_letters': [str(f) for f in ADV_FIRST_QUICK]},
+            'thorough': {'depth': 5, 'adversarially_named_seeds': [list(m[:2]) for m in ADV_MODELS], 'their_first_letters': 'all (PIT, SuperNet); MPS: ' + ', '.join(map(str, ADV_FIRST_THOROUGH_MPS))}}[tier]
 
 
 MODELS = [('pit', 'pit1d', {}), ('pit', 'pit2d', {}), ('pit', 'pit1d_flatcat', {}), ('mps', 'mps_a', {}), ('mps', 'mps_b', {'per_channel': True}),
           ('mps', 'mps_b', {'per_channel': True, 'w0': True}),     # per-channel search with the 0-bit (pruning) alternative
           ('sn', 'sn_a', {}), ('sn', 'sn_gumbel', {})]
+
+
+# seed networks whose layers sit under ordinary-but-adversarial attribute names (fixtures.AdvNamesNet / AdvNamesSN: 'feature_module', 'module',
+# 'submodule.conv', ModuleDict key 'module', 'seed', 'seed_alpha', '_exported_bn', 'alpha', 'choice_module'): a checkpoint is a map from PATHS to
+# tensors, nothing in the round trip may treat the keys as strings
+ADV_MODELS = [('pit', 'adv_names', {}), ('mps', 'adv_names', {}), ('sn', 'adv_names_sn', {})]
+ADV_FIRST_QUICK = ['step_nas', 'observe', None]
+ADV_FIRST_THOROUGH_MPS = ['step_nas', 'step_net', 'observe', 'gumbel=1', None]
+ADV_TAG = 'adversarial-attribute-names'
+
+
+def _is_adv(case):
+    return case['model'] in F.ADV_MODELS.get(case['method'], {})
 
 
 def cases(tier, seed):
@@ -46,6 +69,15 @@ def cases(tier, seed):
            {'fam': 'saved', 'method': 'mps', 'model': 'mps_a', 'kw': {'per_channel': True}, 'tier': tier}]
     for method, name, kw in MODELS:
         for first in _alphabet(method) + [None]:
+            out.append({'method': method, 'model': name, 'kw': kw, 'first': first, 'tier': tier})
+    # the adversarially named seeds: every first letter in the thorough tier, a rotation of three (a NAS step, the logging calls, the
+    # initial state alone) in the quick tier
+    for method, name, kw in ADV_MODELS:
+        firsts = ADV_FIRST_QUICK
+        if tier == 'thorough':
+            # (a depth-5 case of the 7-layer MPS seed costs ~25 CPU-minutes: five first letters there, all of them for PIT and SuperNet)
+            firsts = ADV_FIRST_THOROUGH_MPS if method == 'mps' else _alphabet(method) + [None]
+        for first in firsts:
             out.append({'method': method, 'model': name, 'kw': kw, 'first': first, 'tier': tier})
     return out
 
@@ -71,7 +103,10 @@ def _make(case, seed):
         from plinio.methods.mps import get_default_qinfo
         kw['qinfo'] = get_default_qinfo(w_precision=(0, 2, 4, 8), a_precision=(4, 8))
     spec = {'a': params_bit, 'b': ops_bit} if method == 'mps' else {'a': params, 'b': ops}
-    nas, x, _ = F.make(method, case['model'], seed, train=True, cost=spec, **kw)
+    if _is_adv(case):
+        nas, x, _ = F.make_adv(method, case['model'], seed, train=True, cost=spec, **kw)
+    else:
+        nas, x, _ = F.make(method, case['model'], seed, train=True, cost=spec, **kw)
     nas.train()
     nas._verif_no_export = bool(case['kw'].get('per_channel', False))   # (plain python attribute of the harness, not library state)
     return nas, x
@@ -192,8 +227,15 @@ def _observe(nas, x, trainable_names, with_export=True):
     return obs
 
 
-def _restore(case, seed, sd, training):
+def _restore(case, seed, sd, training, strict_err=None):
+    """strict_err: optional list; when given, the checkpoint is first loaded the way the property states it (strict=True) and an exception of
+    that load is appended to it (the tolerant load below then goes on, so that the keys and the observations are still compared)"""
     fresh, x = _make(case, seed)
+    if strict_err is not None:
+        try:
+            fresh.load_state_dict(copy.deepcopy(sd), strict=True)
+        except Exception as e:
+            strict_err.append(e)
     res = fresh.load_state_dict(sd, strict=False)
     fresh.train(training)
     return fresh, list(res.missing_keys), list(res.unexpected_keys)
@@ -270,11 +312,16 @@ def run_case(case, seed):
     first = case.get('first')
     # per-channel MPS export is documented as unsupported (MPS README; C02 is scoped to per-layer search): not observed there
     wexp = not case['kw'].get('per_channel', False)
+    adv = _is_adv(case)
 
     def run(hist):
         viol = []
 
         def add(kind, sig, msg):
+            if adv and kind != 'option-outside-state-dict':
+                # (an option that lives outside the state_dict is the same finding whatever the layers are called; everything else is signed
+                # by the structure that was needed to see it)
+                sig = f'{sig}/{ADV_TAG}'
             viol.append({'kind': kind, 'sig': sig, 'msg': f'{case["model"]}: checkpoint after history {list(hist)}: {msg}',
                          'case': dict(base_case, history=list(hist))})
 
@@ -292,9 +339,14 @@ def run_case(case, seed):
         training = nas.training
         evals[0] += 1
         if any(op not in ('train', 'eval') for op in hist):
-            nontrivial.add(f'{case["model"]}/' + '.'.join(hist))
+            nontrivial.add(f'{method}:{case["model"]}/' + '.'.join(hist) if adv else f'{case["model"]}/' + '.'.join(hist))
         try:
-            fresh, missing, unexpected = _restore(case, seed, sd, training)
+            strict_err = []
+            fresh, missing, unexpected = _restore(case, seed, sd, training, strict_err)
+            if strict_err:
+                e = strict_err[0]
+                add('strict-load-raises', f'strict-load-raises/{method}', 'load_state_dict(state_dict(), strict=True) into a freshly constructed wrapper of the same '
+                    f'seed network raises {type(e).__name__}: {" ".join(str(e).split())[:260]}')
             if missing or unexpected:
                 add('state-dict-keys', f'state-dict-keys/{method}', f'missing={missing[:3]} unexpected={unexpected[:3]}')
             o1 = _observe(nas, x, trainable, wexp)
